@@ -29,7 +29,7 @@ theorem step_read_live (g : G) (hl : Live g) (nl : Bool) (line o l : Nat) (err i
         else { g with lastLine := line }
       else g := by
   obtain ⟨h1, h2, h3⟩ := hl
-  simp [step, readTail, stmtTail, G.yieldOk, G.yielded, h1, h2, h3]
+  simp [step, readTail, G.yieldOk, G.yielded, h1, h2, h3]
 
 theorem step_stmt_live (g : G) (hl : Live g) (id : Option Nat) (err tn : Bool) (line o l : Nat) :
     step none g (.stmt id err tn line o l) =
@@ -41,7 +41,7 @@ theorem step_stmt_live (g : G) (hl : Live g) (id : Option Nat) (err tn : Bool) (
                  cbs := g.cbs ++ [{ stmts := g.acc ++ [id], inc := incomplete o l, err := false, fromRead := false, inStmt := false }] }
       else { g with acc := g.acc ++ [id] } := by
   obtain ⟨h1, h2, h3⟩ := hl
-  simp [step, readTail, stmtTail, G.yieldOk, G.yielded, h1, h2, h3]
+  simp [step, stmtTail, G.yieldOk, G.yielded, h1, h2, h3]
 
 theorem step_live (g : G) (hl : Live g) (e : Ev) : Live (step none g e) := by
   cases e with
@@ -427,6 +427,7 @@ theorem readTail_stopOk (k : Nat) (g : G) (nl : Bool) (line o l : Nat) (err ins 
     · exact core
     · exact core
   unfold readTail
+  dsimp only
   split
   · split
     · exact key _ rfl
@@ -453,6 +454,7 @@ theorem stmtTail_stopOk (k : Nat) (g : G) (err tn : Bool) (line o l : Nat)
       · exact ⟨rfl, (y5 hst).2.2⟩
       · have := (y3 hst hpan).1; simp [this] at hok
   unfold stmtTail
+  dsimp only
   split
   · obtain ⟨k1, k2, _⟩ := key { stmts := g.acc, inc := incomplete o l, err := true, fromRead := false, inStmt := false }
     split
@@ -497,10 +499,10 @@ theorem step_stopOk (k : Nat) (g : G) (e : Ev) (h : StopOk k g) : StopOk k (step
       cases hh : g.panic <;> simp [hh] at hdp ⊢
     cases e with
     | read nl line o l err ins =>
-      simp only [step, hdp, if_false]
+      simp only [step, hdp]
       exact readTail_stopOk k g nl line o l err ins h hd hp
     | stmt id err tn line o l =>
-      simp only [step, hdp, if_false]
+      simp only [step, hdp]
       exact stmtTail_stopOk k _ err tn line o l h hd hp
 
 theorem runFrom_stopOk (k : Nat) (tr : List Ev) (g : G) (h : StopOk k g) : StopOk k (runFrom (some k) g tr) := by
